@@ -456,10 +456,10 @@ static void files_generate_random(Plan* p, Rng* r, int maxops) {
     uint32_t d = rng_below(r, 100);
     int64_t fo = rng_below(r, NFOBJ), a = rng_below(r, 100000), len_ = lens[rng_below(r, 18)];
     int fault = 0;
-    if (faults && rng_chance(r, 1, 6)) fault = 1 + (int)rng_below(r, VFS_F_NKINDS - 1) + VFS_F_NKINDS * (int)rng_below(r, 4);
+    if (faults && rng_chance(r, 1, 6)) { int fk = (int)rng_below(r, VFS_F_NKINDS - 1); int fw = (int)rng_below(r, 4); fault = 1 + fk + VFS_F_NKINDS * fw; }
     if (!faults && rng_chance(r, 1, 5)) fault = VFS_F_SHORT_READ;
-    if (d < 16) plan_add(p, F_OPEN, 0, fault, fo, rng_below(r, rng_chance(r, 3, 4) ? 2 : VFS_NFILES), rng_below(r, M_NMODES), 0, 0, 0);
-    else if (d < 19) plan_add(p, F_NEWOPEN, 0, fault, fo, rng_below(r, 2), rng_below(r, M_NMODES), 0, 0, 0);
+    if (d < 16) { int64_t o3 = rng_below(r, M_NMODES); uint32_t ob = rng_chance(r, 3, 4) ? 2 : VFS_NFILES; int64_t o2 = rng_below(r, ob); plan_add(p, F_OPEN, 0, fault, fo, o2, o3, 0, 0, 0); }
+    else if (d < 19) { int64_t n3 = rng_below(r, M_NMODES), n2 = rng_below(r, 2); plan_add(p, F_NEWOPEN, 0, fault, fo, n2, n3, 0, 0, 0); }
     else if (d < 29) plan_add(p, F_CLOSE, 0, fault, fo, 0, 0, 0, 0, 0);
     else if (d < 47) plan_add(p, F_WRITE, 0, fault, fo, a, len_, 0, 0, 0);
     else if (d < 63) plan_add(p, F_READ, 0, fault, fo, len_, 0, 0, 0, 0);
@@ -467,7 +467,7 @@ static void files_generate_random(Plan* p, Rng* r, int maxops) {
     else if (d < 77) plan_add(p, F_TELL, 0, 0, fo, 0, 0, 0, 0, 0);
     else if (d < 81) plan_add(p, F_EOF, 0, 0, fo, 0, 0, 0, 0, 0);
     else if (d < 85) plan_add(p, F_FLUSH, 0, fault, fo, 0, 0, 0, 0, 0);
-    else if (d < 90) plan_add(p, F_PRINT, 0, fault, fo, rng_chance(r, 1, 4) ? 4 + rng_below(r, 2) : rng_below(r, 4), (int64_t)rng_below(r, 2000000) - 1000000, 0, 0, 0);
+    else if (d < 90) { int64_t r3 = (int64_t)rng_below(r, 2000000) - 1000000; int64_t r2 = rng_chance(r, 1, 4) ? 4 + rng_below(r, 2) : rng_below(r, 4); plan_add(p, F_PRINT, 0, fault, fo, r2, r3, 0, 0, 0); }
     else if (d < 93) plan_add(p, F_SCAN, 0, 0, fo, 0, 0, 0, 0, 0);
     else if (d < 96) plan_add(p, F_WITH, 0, 0, fo, a, len_, 0, 0, 0);
     else plan_add(p, F_DEL, 0, fault, fo, 0, 0, 0, 0, 0);
